@@ -5,7 +5,8 @@
        o:<reg>:<a1>:<opcode>:<a2>:<keycode or D>:<charhex>:<typedhex>   (opcode = code of d y c < > ~ u U)
        x:<reg>:<cnt>:<keycode of x X D Y ~>   |  ci:<reg>:<cnt>:<keycode of C s S>:<typedhex>
        p:<reg>:<cnt>:<0 P | 1 p>  |  j:<cnt>  |  r:<cnt>:<charhex>  |  i:<keycode of i a I A o O>:<typedhex>
-   answer: "<row> <off> <col> <top> <texthex> <reg>..." for the registers "" a b c 1..9 (<texthex>:<ln> or x), or "fuel" *)
+   answer: "<row> <off> <col> <top> <texthex> <reg>..." for the registers "" a b c 1..9 (<texthex>:<ln> or x), or "fuel"
+   opx <rows> <texthex> <cmd>...   the same through ViInsDefs.exec_prog_x; additional cmd  ai:<0|1>  (:se noai / :se ai) *)
 let pr = Printf.printf
 let key_of code arg =
   match Char.chr code with
@@ -45,6 +46,19 @@ let ecmd_of w =
   | ["r"; c; a] -> CReplace (zi c, bytes_of_hex a)
   | ["i"; k; t] -> CIns (ikey_of (int k), typed t)
   | _ -> failwith "ecmd"
+let xcmd_of w =
+  match String.split_on_char ':' w with
+  | ["ai"; v] -> XAi (v = "1")
+  | _ -> XC (ecmd_of w)
+let pr_est e =
+  let s = e.s_vs in
+  pr "%d %d %d %d %s" (int_of_z s.v_row) (int_of_z s.v_off) (int_of_z s.v_col) (int_of_z s.v_top)
+    (hex_of_bytes (List.concat (List.map flat e.s_buf)));
+  List.iter (fun c ->
+    match reg_get e.s_regs (n_of_int c) with
+    | Some (t, ln) -> pr " %s:%d" (hex_of_bytes t) (if ln then 1 else 0)
+    | None -> pr " x") [0; 97; 98; 99; 49; 50; 51; 52; 53; 54; 55; 56; 57];
+  pr "\n"
 let cmd_of w =
   match String.split_on_char ':' w with
   | ["g"; n] -> Goto (z_of_int (int_of_string n))
@@ -71,6 +85,11 @@ let () =
                | Some (t, ln) -> pr " %s:%d" (hex_of_bytes t) (if ln then 1 else 0)
                | None -> pr " x") [0; 97; 98; 99; 49; 50; 51; 52; 53; 54; 55; 56; 57];
              pr "\n"
+         | None -> pr "fuel\n")
+    | "opx" :: rows :: text :: prog ->
+        let b = buf_of_bytes (bytes_of_hex text) in
+        (match exec_prog_x b (z_of_int (int_of_string rows)) (List.map xcmd_of prog) with
+         | Some (e, _) -> pr_est e
          | None -> pr "fuel\n")
     | "regs" :: puts ->
         (* regs <namehex>:<texthex>:<ln> ...  -> the revealed registers "" a b c 1..9 as <texthex>:<ln> or x *)
